@@ -125,7 +125,7 @@ def rule_emit(ctx, M, u):
     ctx.check(bool(tests) and not bad_tests, "C09.EMIT", u.where, "all-ready test = self.state.iter().all(|s| s.is_ready())", site=u.body.span,
               sample={"tests": len(tests)})
     rets = flow.returns_of(bi, "Ready(Some)")
-    swaps = [s for s in bi.sites if s.key == ("core::mem::swap", "swap") and scan.self_field("output") in (s.arg(0), s.arg(1))]
+    swaps = flow.takes_of(bi, scan.self_field("output"))
     if not rets:
         ctx.fail("C09.EMIT", u.where, "no Ready(Some) return", site=u.body.span)
     for b, kind, payload, t in rets:
@@ -137,7 +137,7 @@ def rule_emit(ctx, M, u):
             probs.append("row storage swapped out at %d sites (expected 1)" % len(swaps))
         else:
             sw = swaps[0]
-            other = sw.arg(1) if sw.arg(0) == scan.self_field("output") else sw.arg(0)
+            other = sw.taken
             if not bi.body.blocks_dominate([sw.block], b) or (te and not bi.guarded_by(sw.block, te)):
                 probs.append("row storage is not swapped out on the full-row path before the return")
         if other is not None and payload is not None:
@@ -219,7 +219,7 @@ def rule_end(ctx, M, u):
     all_cps = {c.block for c in u.cps}
     rets = flow.returns_of(bi, "Ready(None)")
     done_w = [b for b, pt, v, sp in scan.field_writes(bi) if pt == scan.self_field("done") and v == ("const", 1)]
-    swaps = [s.block for s in bi.sites if s.key == ("core::mem::swap", "swap")]
+    swaps = flow.all_take_blocks(bi)
     all_ne = []
     for c in u.cps:
         ne = bi.outcome_edges(c.site, "Ready", "None")
